@@ -40,16 +40,6 @@ pub open spec fn emitted(c0: Seq<u8>, c1: Seq<u8>, p: Seq<u8>, off: int, k: int,
         && c1[c1.len() - 2] & 0xc0 == 0xc0 && ptr_target(c1[c1.len() - 2], c1[c1.len() - 1]) < 16384
         && e - k >= 3)
 }
-pub proof fn lemma_pcs_plain(p: Seq<u8>, off: int, nlen: int)
-    requires pcs_walk(p, off, nlen).is_some()
-    ensures plain_walk(p, off, nlen) == pcs_walk(p, off, nlen)
-    decreases p.len() - off
-{ let b = p[off]; if b != 0 { lemma_pcs_plain(p, off + b + 1, nlen + b + 1); } }
-pub proof fn lemma_pcs_nlen(p: Seq<u8>, off: int, nlen: int, n2: int)
-    requires pcs_walk(p, off, nlen).is_some(), 0 <= n2 <= nlen
-    ensures pcs_walk(p, off, n2) == pcs_walk(p, off, nlen)
-    decreases p.len() - off
-{ let b = p[off]; if b != 0 { lemma_pcs_nlen(p, off + b + 1, nlen + b + 1, n2 + b + 1); } }
 // the rest of a valid name, seen as a slice, is a complete name
 pub proof fn lemma_suffix_is_name(p: Seq<u8>, off: int, nlen: int)
     requires pcs_walk(p, off, nlen) matches Some(e) && nlen >= 0
